@@ -6,7 +6,7 @@ open PhQVerif Generated
 #print axioms PhQVerif.Props.C15.thresholds
 #print axioms PhQVerif.Props.C15.cascade_constants_match_source
 #print axioms PhQVerif.Props.C15.sci_has_md_plus_one_digits
-#print axioms PhQVerif.Props.C15.fixed_digits_partial
+#print axioms PhQVerif.Props.C15.fixed_has_md_plus_one_digits
 #print axioms PhQVerif.Props.C15.composite_forms
 #print axioms PhQVerif.Props.C15.json_skeleton_valid
 #print axioms PhQVerif.Props.C15.streaming_equals_printing
